@@ -60,6 +60,72 @@ def resolve(qualname):
     raise ImportError(qualname)
 
 
+def build_args(args):
+    pos = []
+    kw = {}
+    for k in sorted(args, key=lambda s: (not s.startswith('arg'), s)):
+        v = rebuild(args[k])
+        if k.startswith('arg') and k[3:].isdigit():
+            pos.append((int(k[3:]), v))
+        else:
+            kw[k] = v
+    return [v for _, v in sorted(pos)], kw
+
+
+def purge_eqsig():
+    """forget every imported eqsig module, so that the next import starts from a fresh module state (no memo tables, no caches)"""
+    for m in [m for m in sys.modules if m == 'eqsig' or m.startswith('eqsig.')]:
+        del sys.modules[m]
+
+
+def _outcome(f, pos, kw, keep=None):
+    try:
+        with np.errstate(all='ignore'):
+            r = f(*pos, **kw)
+        if keep is not None:
+            keep.append(r)
+        return {'result': jsonable(r), 'arguments_after': jsonable([pos, kw])}
+    except Exception as e:
+        return {'raises': type(e).__name__, 'message': str(e)[:300]}
+
+
+def history_replay(qualname, ce):
+    """Two-call histories: the call under test is run (a) in a fresh module state and (b) after the earlier call of the history;
+    the function's contract makes its outcome a function of its arguments, so a difference is a failing history on the real code.
+    Also: what the earlier call returned must still be what it returned once the later call has been made."""
+    h = ce['history']
+    purge_eqsig()
+    f = resolve(qualname)
+    pos, kw = build_args(ce['args'])
+    fresh = _outcome(f, pos, kw)
+    purge_eqsig()
+    f = resolve(qualname)
+    pos, kw = build_args(ce['args'])
+    kept = []
+    if h['variant'] == 'again':
+        first = _outcome(f, pos, kw, kept)
+        hist = _outcome(f, pos, kw)
+        # the second call starts from arguments the first call may have legitimately updated (caches): compare the RESULTS only
+        same = close(fresh.get('result'), hist.get('result')) and fresh.get('raises') == hist.get('raises')
+    else:
+        ppos, pkw = build_args(h['earlier_call_args'])
+        first = _outcome(f, ppos, pkw, kept)
+        hist = _outcome(f, pos, kw)
+        same = close(fresh, hist)
+    first_after = jsonable(kept[0]) if kept else None
+    purge_eqsig()
+    if 'raises' in first:
+        return dict(status='not-reproduced', detail='the earlier call of the history raised %s on the real code' % first['raises'])
+    if kept and not close(first['result'], first_after, rtol=0, atol=0):
+        return dict(status='confirmed', observed={'earlier_result_when_returned': first['result'], 'earlier_result_after_the_later_call': first_after},
+                    detail='real code: the value returned by the earlier call was overwritten by the later call (the two results share memory)')
+    if same:
+        return dict(status='not-reproduced', detail='real code: the call gives the same outcome after the earlier call (%s) as on a fresh state' % h['variant'])
+    return dict(status='confirmed', observed={'fresh_state': fresh, 'after_earlier_call': hist},
+                detail='real code: the outcome of the call depends on an earlier call (%s): it differs from the outcome of the same call on a fresh '
+                       'module state' % ('the same call made before' if h['variant'] == 'again' else 'same function, other arguments'))
+
+
 def call_real(qualname, args):
     f = resolve(qualname)
     pos = []
@@ -147,6 +213,14 @@ def replay_record(qualname, ce, info=None, clause=None):
 
     Returns dict(status in {'confirmed','not-reproduced','not-replayable'}, observed=..., detail=...).
     """
+    if qualname and ce and ce.get('history') and 'args' in ce and not ce.get('render_error') and \
+            not any(isinstance(v, str) and v.startswith('<') for v in _leaves([ce['args'], ce['history']])):
+        try:
+            r = history_replay(qualname, ce)
+        except Exception as e:
+            r = dict(status='not-replayable', detail='history replay crashed: %s: %s' % (type(e).__name__, e))
+        if r['status'] == 'confirmed' or not info:
+            return r
     if info:
         return custom_replay(info, ce, clause)
     if not qualname or ce is None or 'args' not in ce or ce.get('render_error'):
